@@ -102,7 +102,12 @@ impl<T: Ord> MemoryBoundedQueue<T> {
         crate::verif_hooks::ev("q.push.enter", [Arc::as_ptr(&self.inner) as u64, size_bytes as u64, inner.items.len() as u64, (inner.current_size as u64) << 1 | inner.closed as u64]);
 
         // Wait while queue would be too full
-        while inner.current_size + size_bytes > self.capacity_bytes && !inner.closed {
+        // An item larger than the whole capacity can never "fit": admit it once the queue is
+        // empty instead of waiting forever (the bound still holds whenever each item fits).
+        while inner.current_size + size_bytes > self.capacity_bytes
+            && !inner.items.is_empty()
+            && !inner.closed
+        {
             #[cfg(ragc_verif)]
             crate::verif_hooks::ev("q.push.wait", [Arc::as_ptr(&self.inner) as u64, size_bytes as u64, inner.items.len() as u64, (inner.current_size as u64) << 1 | inner.closed as u64]);
             inner = self.not_full.wait(inner).unwrap();
@@ -146,7 +151,7 @@ impl<T: Ord> MemoryBoundedQueue<T> {
             return Err(TryPushError::Closed);
         }
 
-        if inner.current_size + size_bytes > self.capacity_bytes {
+        if inner.current_size + size_bytes > self.capacity_bytes && !inner.items.is_empty() {
             #[cfg(ragc_verif)]
             crate::verif_hooks::ev("q.trypush.wouldblock", [Arc::as_ptr(&self.inner) as u64, size_bytes as u64, inner.items.len() as u64, (inner.current_size as u64) << 1 | inner.closed as u64]);
             return Err(TryPushError::WouldBlock);
